@@ -252,8 +252,12 @@ let handle kind c =
           if is_count_s n && not (List.mem_assoc n loc) then
             match List.find_opt (fun x -> x.c_name = n) counts with
             | Some x ->
-              if not (witness_ever x.c_week) then
-                once "deleted_without_report" (Printf.sprintf "step %d: %s removed, no report for week %s has existed" i n x.c_week) prop07
+              if not (witness_ever x.c_week) then begin
+                if contains_sub (string_of_bytes dirp) x.c_week then
+                  once "dir_path_contains_date" (Printf.sprintf "step %d: %s removed, no report for week %s has existed; the telemetry directory path contains %s" i n x.c_week x.c_week) prop07
+                else
+                  once "deleted_without_report" (Printf.sprintf "step %d: %s removed, no report for week %s has existed" i n x.c_week) prop07
+              end
             | None -> once "touched" (Printf.sprintf "step %d: unparseable count file %s removed" i n) prop07) !prev_local;
       (* C07: active and unparseable count files stay byte-identical *)
       List.iter (fun n ->
@@ -326,7 +330,7 @@ let handle kind c =
             List.mem ("local." ^ w ^ ".json") init_local_names || List.mem (w ^ ".json") init_local_names
             || List.mem (w ^ ".json") init_up_names
             || (mode_on && List.exists (fun n -> is_ready_s n && contains_sub n w) init_local_names) in
-          if uniform w && fw <> [] && has_counts && not evidence0 then
+          if uniform w && fw <> [] && has_counts && not evidence0 && not (contains_sub (string_of_bytes dirp) w) then
             if not (List.mem_assoc ("local." ^ w ^ ".json") !prev_local) then
               once "missing_report" (Printf.sprintf "week %s: %d expired files with counters, no local.%s.json after all runs" w (List.length fw) w) prop07) weeks;
     (* C08: without kills, a further complete run answered 200 delivers every uploadable week exactly once *)
